@@ -25,12 +25,23 @@ def lmap_pairs(lm):
     return [[int(k), [int(x) for x in v]] for k, v in lm.items()]
 
 
-def one_step(k, acc, lm, ins, dele):
-    """One recorded step on the shared objects acc / lm (modified in place by the library)."""
+def scores_of(k, live, ins, dele):
+    acc = impl.accessor(live)
+    rs = impl.call(dsw.calculate_intersection_score, dsw.accessor_to_latter_map(acc), observed_length=k, has_insertion=ins, has_deletion=dele)
+    return impl.jsonable(rs["value"]) if rs["out"] == "ok" else []
+
+
+def one_step(k, acc, lm, ins, dele, iteration=0, defer_scores=False):
+    """One recorded step on the shared objects acc / lm (modified in place by the library). With defer_scores the score matrix of
+    the state before the call is not asked for here (nothing touches the shared objects between two removal calls); the caller
+    fills it in afterwards from fresh objects (scores_of)."""
     live = impl.live_of(acc)
-    rs = impl.call(dsw.calculate_intersection_score, lm, observed_length=k, has_insertion=ins, has_deletion=dele)
-    scores = impl.jsonable(rs["value"]) if rs["out"] == "ok" else []
-    r = impl.call(dsw.remove_nasty_arc, acc, lm, has_insertion=ins, has_deletion=dele, _alarm=60)
+    if defer_scores:
+        scores = []
+    else:
+        rs = impl.call(dsw.calculate_intersection_score, lm, observed_length=k, has_insertion=ins, has_deletion=dele)
+        scores = impl.jsonable(rs["value"]) if rs["out"] == "ok" else []
+    r = impl.call(dsw.remove_nasty_arc, acc, lm, iteration=iteration, has_insertion=ins, has_deletion=dele, _alarm=60)
     c = {"k": k, "live": live, "ins": bool(ins), "del": bool(dele), "scores": scores, "out": cf.outcome(r), "removed": [0, 0],
          "acc_after": [], "lmap_after": [], "dup": False}
     if r["out"] == "ok":
@@ -99,15 +110,23 @@ def histories(rng, n, maxsteps):
             maxs = maxsteps
         acc = impl.accessor(live)
         lm = dsw.accessor_to_latter_map(acc)
-        ins, dele = [(True, True), (True, False), (False, True), (False, False)][i % 4]
+        ins, dele = [(True, True), (True, False), (False, True), (False, False)][(i // 2) % 4]
+        # every second history is an uninterrupted trimming loop as the experiments run it: round numbers 1, 2, ... are passed, the
+        # flags stay the same and nothing else is called on the shared objects between two rounds
+        loop = i % 2 == 1
+        mine = []
         for step in range(maxs):
-            if rng.random() < 0.15:
+            if not loop and rng.random() < 0.15:
                 ins, dele = rng.choice([True, False]), rng.choice([True, False])
-            c, (a2, l2) = one_step(k, acc, lm, ins, dele)
-            cases.append(c)
+            c, (a2, l2) = one_step(k, acc, lm, ins, dele, iteration=(step + 1 if loop else 0), defer_scores=loop)
+            mine.append(c)
             if c["out"] != "ok":
                 break
             acc, lm = a2, l2            # the objects handed back are used for the next call
+        if loop:
+            for c in mine:
+                c["scores"] = scores_of(c["k"], c["live"], c["ins"], c["del"])
+        cases += mine
     return cases
 
 
